@@ -11,7 +11,7 @@ import z3
 
 from . import drv, vals, solve, validate, mpc_common as mc
 from .cctypes import T
-from .common import Check, pool_map
+from .common import Check, pool_map, safe_analyze
 from .interp import Interp, Unsupported, flat_elems, shape_of, shape_of_type
 from .prog import CB
 from .validate import op_name, RANDOMISING
@@ -329,6 +329,7 @@ def body_associative(case, G, timeout_s):
     return True
 
 
+@safe_analyze(lambda a: dict(id=a[0]["id"], status=None, queries=[], note="", cex=None, n_nodes=0, validated=0, mism=[], real_disagree=None))
 def analyze(args):
     case, res, timeout_s = args
     out = dict(id=case["id"], status=None, queries=[], note="", cex=None, n_nodes=0, validated=0, mism=[], real_disagree=None)
